@@ -31,6 +31,8 @@ def _grp(k, rows):
 # name -> (make(t, **strategy kwargs), supports presorted, presort key ('a' | 'row' | ('a','b')), pair?)
 OPS = {
     'sort': (lambda t, **kw: petl.sort(t, 'a', **kw), False, None, False),
+    'sort-reverse': (lambda t, **kw: petl.sort(t, 'a', reverse=True, **kw), False, None, False),
+    'mergesort-reverse': (lambda t, **kw: petl.mergesort(t, SAME, key='a', reverse=True, **kw), False, None, False),
     'join': (lambda t, **kw: petl.join(t, OTHER, key='a', **kw), False, None, False),
     'leftjoin': (lambda t, **kw: petl.leftjoin(t, OTHER, key='a', **kw), False, None, False),
     'rightjoin-R': (lambda t, **kw: petl.rightjoin(OTHER, t, key='a', **kw), False, None, False),
@@ -273,7 +275,7 @@ def jobs(tier):
         modes = ['buffersize', 'config'] + (['presorted'] if OPS[op][1] else [])
         for mode in modes:
             binary = op in ('join', 'leftjoin', 'rightjoin-R', 'outerjoin', 'antijoin', 'lookupjoin', 'complement',
-                            'intersection', 'diff', 'recordcomplement', 'recorddiff', 'mergesort', 'merge')
+                            'intersection', 'diff', 'recordcomplement', 'recorddiff', 'mergesort', 'merge', 'mergesort-reverse')
             Nj = N - 1 if (q and (mode == 'config' or binary)) else N
             out.append(dict(name='strategy/%s/%s/O/n<=%d' % (op, mode, Nj), func='strategy',
                             params=dict(op=op, N=Nj, dom='O', mode=mode), budget=B))
